@@ -106,6 +106,17 @@ def _standin_for(engine_name, mod, clsname):
                         r.check(o, c) if c is not None else r.check(o)
                     except Exception:  # noqa: BLE001
                         pass
+                    if engine_name == "polars" and clsname == "DateTime":
+                        import polars as pl
+
+                        try:
+                            verdict = bool(r.check(o))
+                            native = polars_engine.Engine.dtype(o).type
+                        except Exception:  # noqa: BLE001
+                            verdict, native = False, None
+                        if verdict and not isinstance(native, pl.Datetime):
+                            return {"examples": n, "bound": bound, "failing_input": {"receiver": repr(r0), "argument": repr(o)},
+                                    "observed": f"a Datetime type recognises {native!r}: a type of another kind"}
                     if snap(r) != before_r or snap(o) != before_o:
                         return {"examples": n, "bound": bound, "failing_input": {"receiver": repr(r0), "argument": repr(o), "data": None if c is None else repr(c.tolist() if hasattr(c, 'tolist') else c)},
                                 "observed": {"receiver before": before_r, "receiver after": snap(r), "argument before": before_o, "argument after": snap(o)}}
@@ -160,6 +171,18 @@ def _mk(engine_name, mod, clsname):
 
             # failure cases of a pandas container (precondition of the engine: the container is a Series / Index / DataFrame)
             I.models[id(EU.numpy_pandas_coerce_failure_cases)] = lambda I_, *a, **k: _Opaque("failure_cases")
+            if engine_name == "polars":
+                import polars as pl
+
+                def pl_datetime(I_, time_unit=None, time_zone=None, **k):
+                    # pl.Datetime(time_unit, time_zone): a Datetime whose attributes are the arguments (the default unit is polars' own)
+                    v = OpaqueVal("pl.Datetime(..)")
+                    v._isinst[(pl.Datetime,)] = True
+                    v._attrs["time_unit"] = time_unit if time_unit is not None else OpaqueVal("default_time_unit")
+                    v._attrs["time_zone"] = time_zone
+                    return v
+
+                I.models[id(pl.Datetime)] = pl_datetime
             I.models[id(np.full_like)] = lambda I_, *a, **k: _Opaque("all_false")
             import pandas as pd
 
@@ -199,6 +222,12 @@ def _mk(engine_name, mod, clsname):
                 bc = cur().ghost.get("base_check_calls", [])
                 if cur().ghost["interp"].truth(tza):
                     out["tz_agnostic_verdict_needs_no_base_check"] = not bc
+                    # "time zone agnostic": any Datetime of the same time unit, whatever its zone - and nothing else (a Duration of the
+                    # same unit is another KIND of type: C09 "a temporal type never recognises a type of another kind")
+                    rt, st = fld0(res, "type"), fld0(self_, "type")
+                    same_kind = rt.pyvc_isinstance(pl.Datetime)
+                    same_unit = py_eq(rt.time_unit, st.time_unit)
+                    out["tz_agnostic_verdict_is_same_kind_and_time_unit"] = Iff(truth(result), And(same_kind, same_unit))
                 else:
                     out["otherwise_base_check_on_the_resolved_type_at_most_once"] = len(bc) <= 1 and all(c[0] is self_ and c[1] and c[1][0] is res for c in bc)
                     out["otherwise_not_recognised_unless_native_types_equal"] = Implies(truth(result), py_eq(fld0(self_, "type"), fld0(res, "type")))
